@@ -234,3 +234,38 @@ def ver_of(evid: str) -> str:
         if p in SUPPORTED:
             return p
     return "?"
+
+
+def negative_control(rep: Report, files, module: str, corrupt, expect: tuple[str, ...], keep_first_line=False, expect_delta=1):
+    """Binding is demonstrated, not assumed: take one recorded event, corrupt one field, and require
+    the trace specification to reject it with a clause from `expect`.  A corrupted event that is
+    accepted is a machinery error."""
+    import copy
+    import os
+
+    for f in files:
+        if not os.path.exists(f):
+            continue
+        lines = [ln for ln in open(f).read().split("\n") if ln]
+        head = lines[:1] if keep_first_line else []
+        for ln in lines[1 if keep_first_line else 0:][:400]:
+            e = json.loads(ln)
+            bad = corrupt(copy.deepcopy(e))
+            if bad is None:
+                continue
+            tmp = f + ".negctl"
+            with open(tmp, "w") as fh:
+                for h in head:
+                    fh.write(h + "\n")
+                fh.write(json.dumps(bad, separators=(",", ":")) + "\n")
+            r = run_tlc(module, module + ".cfg", workers=1, env={"TRACE_FILE": tmp}, heap="1g", timeout=600)
+            got = [b for s_ in tlc_prints(r.out) for b in json.loads(tla_unescape(s_))["bad"]]
+            ok = any(g.startswith(expect) for g in got)
+            rep.cov.setdefault("negative_controls", []).append(
+                {"trace_spec": module, "event": e.get("id"), "rejected_with": sorted(set(got))[:6], "ok": ok})
+            if not ok:
+                rep.machinery_error(f"negative control: {module} accepted a corrupted event {e.get('id')} (clauses {got[:5]}; "
+                                    f"{r.errors[:2]})")
+            os.remove(tmp)
+            return
+    rep.machinery_error(f"negative control for {module}: no event could be corrupted")
